@@ -95,6 +95,12 @@ def population(shard, nshards, tier, sd):
         u = Unit(f"q{shard}_{i}", g, meta)
         u.twin = True
         units.append(u)
+    # interaction templates (randomized): conjunctions of features the random generator reaches rarely
+    for i in range(2):
+        g, meta = buckets.interaction_grammar(rng)
+        u = Unit(f"i{shard}_{i}", g, meta)
+        u.twin = True
+        units.append(u)
     # labelled buckets for shapes that are known to trip a defect (each shard takes a slice)
     for bi, (name, g, inputs) in enumerate(buckets.known_shapes()):
         if bi % nshards == shard:
